@@ -170,7 +170,10 @@ def _dispatch(chk, repo, mod, W):
                 ok = w.end == "raise" and "ZeroDivisionError" in last
                 exp = "ZeroDivisionError"
             elif ln == 1:
-                ok = w.end == "return" and any("next(iteritems(%s._data))" % o_ in unparse(st) for st in w.ran)
+                ges_ = [n for n in ast.walk(w.last) if isinstance(n, ast.GeneratorExp)] if w.last is not None else []
+                ok = w.end == "return" and len(ges_) == 1 and isinstance(ges_[0].elt, ast.Tuple) \
+                    and isinstance(ges_[0].elt.elts[0], ast.BinOp) and isinstance(ges_[0].elt.elts[0].op, ast.Sub) \
+                    and not any(unparse(st).startswith("%s = thub(" % o_) for st in w.ran)
                 exp = "division by the single term (powers shifted)"
             else:
                 ok = w.end == "raise" and "NotImplementedError" in last
